@@ -12,7 +12,7 @@ Case families
   random    libraries with every option set independently and 0-3 items per list, versions none / 5.3 .. 5.8, under random
             styles (separators with comments incl. non-ASCII text, keyword case masks, number spellings, permutations,
             END LIBRARY present or not)."""
-import json
+import json, re
 from vlib import *
 from props.lefcommon import *
 
@@ -198,7 +198,7 @@ def lib_diff(t, a, b, path="lib"):
         return lib_diff(t[1], a, b, path)
     if k == "list":
         if len(a) != len(b):
-            return "%s(%d items read as %d)" % (path, len(a), len(b))
+            return "%s(%s)" % (path, "items missing" if len(b) < len(a) else "extra items")
         for x, y in zip(a, b):
             d = lib_diff(t[1], x, y, path + "[]")
             if d:
@@ -234,7 +234,7 @@ def err_signature(e):
     if p["k"] == "parse":
         tok = p["token"]
         tok = tok.upper() if tok.upper() in _KEYWORDS else ("<number>" if is_rust_float(tok) else "<name>")
-        return "error Parse %s%s in %s at %s" % (p["tp"][0], "" if p["tp"][1] is None else "(%s)" % p["tp"][1], "/".join(p["ctx"]), tok)
+        return "error Parse %s%s in %s at %s" % (p["tp"][0], "" if p["tp"][1] is None else "(%s)" % p["tp"][1], (p["ctx"] or ["-"])[-1], tok)
     if p["k"] == "str":
         return "error Str(%s)" % p["text"][:80]
     return "error " + p["k"]
@@ -254,9 +254,25 @@ def failure_class(lib, r):
     return "panic" if "panic" in r else "crash"
 
 # ------------------------------------------------------------------ evaluation
+RENDER_HDR = LEF_HDR + """
+Fixpoint c04_chunks (fuel : nat) (s : bytes) : list string :=
+  match fuel with
+  | O => []
+  | S f => match s with [] => [] | _ => hex (firstn 400 s) :: c04_chunks f (skipn 400 s) end
+  end.
+Definition c04_render_hex (sty : style) (l : lef_lib) : list string :=
+  let b := render sty l in c04_chunks (S (List.length b)) b.
+"""
+def render_pairs(chk, pairs, tag):
+    """[(style term, library value)] -> rendered texts (bytes), evaluated in Coq. The text is printed in pieces of 400 bytes
+    (coqc's printer overflows its stack on one string literal of some ten thousand characters)."""
+    items = ["(c04_render_hex %s %s)" % (s, lib_to_coq(l)) for s, l in pairs]
+    outs = coq_eval_lists(RENDER_HDR, items, chk.rundir, tag, shard=max(10, len(items) // (3 * NCPU) + 1))
+    return [bytes.fromhex("".join(re.findall(r'"([0-9a-f]*)"', o))) for o in outs]
+
 def render_all(chk, cases, tag):
     """fills c["src"] (hex) for every case"""
-    outs = render_cases(chk, [(Raw(c["sty"]), c["lib"]) for c in cases], tag)
+    outs = render_pairs(chk, [(Raw(c["sty"]), c["lib"]) for c in cases], tag)
     for c, b in zip(cases, outs):
         c["src"] = b.hex()
 
